@@ -187,9 +187,14 @@ where
     let result = match options.method {
         Method::RK4 => {
             // The fixed step: first_step if given (with the sign of the interval, as for the
-            // adaptive methods), else a hundredth of the interval.
+            // adaptive methods), else a hundredth of the interval; never longer than max_step.
             let dir = if xend >= x0 { 1.0 } else { -1.0 };
-            let h = options.first_step.map_or((xend - x0) / 100.0, |h0| h0.abs() * dir);
+            let mut h = options.first_step.map_or((xend - x0) / 100.0, |h0| h0.abs() * dir);
+            if let Some(hmax) = options.max_step {
+                if h.abs() > hmax.abs() {
+                    h = hmax.abs() * dir;
+                }
+            }
             let solver = RK4::builder()
                 .max_steps(options.max_steps.unwrap_or(usize::MAX))
                 .build();
